@@ -212,7 +212,7 @@ theorem c05_of_wf (cmp : Cmp) (t : TableImg) (hwf : t.WF cmp) (hx : SpecExtras t
     (fb : Bytes) (hview : FilterView p t (some fb)) (hsound : FilterSound p t fb)
     (hord : ∀ (i : Nat) (di dj : DBlock), t.blocks[i]? = some di → t.blocks[i+1]? = some dj →
       di.handle.offset + di.handle.size + 5 ≤ dj.handle.offset)
-    (isBloom : Bool) (hbloom : isBloom = true → (∃ b, p = Bloom.policy b) ∧ t.img.length ≤ 2 ^ 29) :
+    (isBloom : Bool) (hbloom : isBloom = true → (∃ b, p = Bloom.policy b) ∧ t.img.length < 2 ^ 32) :
     Judge.c05 cmp t.img t.entries p.name isBloom = "ok" := by
   -- membership / indexing in the decoded block list
   have hblocks : (decoded t).blocks = t.blocks.map toDB := rfl
